@@ -12,7 +12,7 @@
    and no ancestor of it is a file), [fresh_or_overwrite] (overwrite requested, or nothing at the target). *)
 From Coq Require Import ZArith QArith Reals List Bool.
 Close Scope Q_scope.
-From PAV Require Import Base.NumOps Base.Check Model.C16 Proofs.C16 Proofs.C16img.
+From PAV Require Import Base.NumOps Base.Check Model.C16 Proofs.C16 Proofs.C16img Model.C16h Proofs.C16h.
 Import ListNotations.
 
 (* ------------------------------------------------------------------ values and orientation *)
@@ -260,6 +260,92 @@ Example C16_model_run_flip :
   end = true.
 Proof. vm_compute. reflexivity. Qed.
 
+(* ------------------------------------------------------------------ phase 2: DERIVED and RE-USED objects (Model/C16h.v)
+   A history = one Array2D / Kernel2D / Array1D built with any store_native (and, in 2-D, either value of
+   general.structures.native_binned_only), then any list of steps: arithmetic with scalars and with another array
+   (the RAW buffer is operated on, masked pixels included), .native, .slim, .copy(), `other = obj`, swapping the two names,
+   in-place assignments obj[k] = v / obj[y, x] = v, changes of flip_for_ds9, and the observations np.array(obj.native),
+   hdu_for_output -> from_primary_hdu, output_to_fits -> from_fits, each any number of times.
+   The statements need one more law of the number system: x * 0 = 0 (C16_reals_mul_zero). *)
+(* whatever the stored buffer holds at masked pixels, the content an array shows has zeros there *)
+Theorem C16_stored_array_content_is_zero_at_masked : forall (O : NumOps) (a : @sarr O),
+  zero_fill (s_mask a) (logical a) = logical a.
+Proof. exact @logical_zero_filled. Qed.
+(* hdu_for_output / output_to_fits of a stored array write that content (not the buffer) *)
+Theorem C16_stored_array_hdu_is_content : forall (O : NumOps) (L : lawful O) (Lz : forall x : T O, mul O x (@zero O) = @zero O)
+  nbo flip (a : @sarr O), sarr_wf a ->
+  sarr_hdu_for_output nbo flip a = FOk (hdu_for_output_from_2d flip (logical a) (pixel_scale_header (scales2 (s_scales a)))).
+Proof. exact @sarr_hdu_logical. Qed.
+Theorem C16_stored_array_output_is_write_of_content : forall (O : NumOps) (L : lawful O) (Lz : forall x : T O, mul O x (@zero O) = @zero O)
+  nbo flip fs (a : @sarr O) p ow, sarr_wf a ->
+  sarr_output_to_fits nbo flip fs a p ow
+  = FOk (to_fits fs p ow [hdu_for_output_from_2d flip (logical a) (pixel_scale_header (scales2 (s_scales a)))]).
+Proof. exact @sarr_output_logical. Qed.
+(* every history of a 2-D array on which no step raises shows exactly what the same history shows on the logical content
+   zero_fill mask vals, evolved by the pure functions lop2 / lbop2 / lset1_2 / lset2_2 of Model/C16h.v *)
+Theorem C16_history_array2d_is_history_of_content : forall (O : NumOps) (L : lawful O) (Lz : forall x : T O, mul O x (@zero O) = @zero O)
+  nbo is_kernel sc_read sn (vals : list (list (T O))) mask sc flip fs steps, same_len2 vals mask = true ->
+  exists a, sarr_init nbo (BNative vals) mask sc sn false = FOk a /\
+    (no_err (hrun (class_arr2 nbo is_kernel sc_read) steps (@mkhst O _ _ a a true flip fs)) = true ->
+     hrun (class_arr2 nbo is_kernel sc_read) steps (@mkhst O _ _ a a true flip fs)
+     = hrun (class_log2 mask sc is_kernel sc_read) steps (@mkhst O _ _ (zero_fill mask vals) (zero_fill mask vals) true flip fs)).
+Proof. exact @hist2_refines. Qed.
+Theorem C16_history_array1d_is_history_of_content : forall (O : NumOps) (L : lawful O) (Lz : forall x : T O, mul O x (@zero O) = @zero O)
+  sc_read sn (vals : list (T O)) mask sc flip fs steps, length vals = length mask ->
+  let a := mkarr1 (convert_array_1d vals mask sn) mask sc in
+  no_err (hrun (class_arr1 sc_read) steps (@mkhst O _ _ a a true flip fs)) = true ->
+  hrun (class_arr1 sc_read) steps (@mkhst O _ _ a a true flip fs)
+  = hrun (class_log1 mask sc sc_read) steps (@mkhst O _ _ (zero_fill_row mask vals) (zero_fill_row mask vals) true flip fs).
+Proof. exact @hist1_refines. Qed.
+(* on the content itself: the HDU written holds the content (upside-down when the flag is on) and reads back as the content,
+   unmasked, with the scales of the cards; the file route likewise on a well-formed tree *)
+Theorem C16_content_roundtrip_hdu : forall (O : NumOps) (L : lawful O) mask sc is_kernel sc_read flip (g : list (list (T O))),
+  exists h, h_hdu _ _ _ (class_log2 mask sc is_kernel sc_read) flip g = FOk h
+    /\ hdata h = (if flip then rev g else g)
+    /\ h_read_hdu _ _ _ (class_log2 mask sc is_kernel sc_read) flip h = FOk (g, all_false2 g, sc, [], []).
+Proof. exact @log2_hdu_roundtrip. Qed.
+Theorem C16_content_roundtrip_file : forall (O : NumOps) (L : lawful O) mask sc is_kernel sc_read flip
+  (fs : fitsfs (T O) (list (T O))) (g : list (list (T O))) p ow k,
+  fs_wf fs = true -> target_ok fs p = true -> fresh_or_overwrite fs p ow = true -> sole_index k = true ->
+  exists fs' m hs hh,
+    h_write _ _ _ (class_log2 mask sc is_kernel sc_read) flip fs g p ow
+      = FOk (to_fits fs p ow [hdu_for_output_from_2d flip g (pixel_scale_header (scales2 sc))])
+    /\ to_fits fs p ow [hdu_for_output_from_2d flip g (pixel_scale_header (scales2 sc))] = (fs', None)
+    /\ h_read_file _ _ _ (class_log2 mask sc is_kernel sc_read) flip fs' p k = FOk (g, m, sc_read, hs, hh)
+    /\ pixel_scales_via_header_from hs = FOk sc.
+Proof. exact @log2_file_roundtrip. Qed.
+Theorem C16_reals_mul_zero : forall x : T ROps, mul ROps x (@zero ROps) = @zero ROps.
+Proof. exact reals_mul_zero. Qed.
+(* non-vacuity: a natively stored 2x3 array with a masked pixel under native_binned_only; arr + 5, an in-place write INTO the
+   masked pixel, then the three observations: no step raises (reals) *)
+Example C16_history_hyps_satisfiable :
+  let vals := [[1; -2; 3]; [4; 5; -6]]%R in
+  let mask := [[false; true; false]; [false; false; false]] in
+  same_len2 vals mask = true
+  /\ match @sarr_init ROps true (@BNative ROps vals) mask (1, 1)%R false false with
+     | FOk a => no_err (hrun (@class_arr2 ROps true false (1, 1)%R)
+                         [SOp (@PAdd ROps 5%R); @SSet2 ROps 0 1 7%R; SPeek; SHdu; SFile [10%nat] false 0%Z]
+                         (@mkhst ROps _ _ a a true true (mkfs [] [])))
+     | FRaise _ => false
+     end = true.
+Proof. split; reflexivity. Qed.
+(* the model RUN (at Q) on that history: the buffer holds 5+... at the masked pixel, then 7; what is shown, written (flag on:
+   upside-down) and read back has 0 there *)
+Example C16_model_run_history :
+  let vals := [[1; -2; 3]; [4; 5; -6]]%Q in
+  let mask := [[false; true; false]; [false; false; false]] in
+  match @sarr_init QOps true (@BNative QOps vals) mask (1, 1)%Q false false with
+  | FOk a =>
+      list_eqb (obsv_eqb row_eqb obs2_eqb)
+        (hrun (@class_arr2 QOps true false (1, 1)%Q) [SOp (@PAdd QOps 5%Q); @SSet2 QOps 0 1 7%Q; SPeek; SHdu]
+              (@mkhst QOps _ _ a a true true (mkfs [] [])))
+        [@OPeek QOps _ _ [[6; 0; 8]; [9; 10; -1]]%Q;
+         @OHdu QOps _ _ (mkhdu [[9; 10; -1]; [6; 0; 8]]%Q [(PIXSCALE, 1%Q)])
+               (FOk ([[6; 0; 8]; [9; 10; -1]], all_false2 vals, (1, 1), [], []))%Q]
+  | FRaise _ => false
+  end = true.
+Proof. vm_compute. reflexivity. Qed.
+
 Print Assumptions C16_masked_array_native_is_zero_filled.
 Print Assumptions C16_roundtrip_values_hdu.
 Print Assumptions C16_masked_array_reads_zeros.
@@ -290,3 +376,11 @@ Print Assumptions C16_write_keeps_tree_wellformed.
 Print Assumptions C16_imaging_roundtrip.
 Print Assumptions C16_imaging_roundtrip_normalized_psf.
 Print Assumptions C16_reals_are_lawful.
+Print Assumptions C16_stored_array_content_is_zero_at_masked.
+Print Assumptions C16_stored_array_hdu_is_content.
+Print Assumptions C16_stored_array_output_is_write_of_content.
+Print Assumptions C16_history_array2d_is_history_of_content.
+Print Assumptions C16_history_array1d_is_history_of_content.
+Print Assumptions C16_content_roundtrip_hdu.
+Print Assumptions C16_content_roundtrip_file.
+Print Assumptions C16_reals_mul_zero.
